@@ -21,7 +21,7 @@ MANIFEST_BASE = {
         "guard": "verif",
         "enable": "go build -tags verif (the harness module replaces github.com/risor-io/risor with /repo)",
         "baseline_off_cmd": "cd /repo && go build ./... && go test -vet=off -count=1 ./...",
-        "source_commits": [],
+        "source_commits": ["baec371"],
         "add_only": True,
     },
     "engines": [
